@@ -21,7 +21,9 @@ Val(k) == CASE k = 1 -> <<>> [] k = 2 -> <<1>> [] k = 3 -> <<2>> [] k = 4 -> Pow
 \* Random draws are made once per step into the state variable `rnd` (a LET
 \* definition containing RandomElement would be re-evaluated at every use).
 SliceLens == <<0, 1, 2, 3, 7, 20, 30, 61, 62, 63>>
-ResizeLens == <<0, 1, 2, 30, 60, 61, 62, 63, 64>>
+\* for the bounded (stack) vector also lengths far beyond the capacity whose low 8 / 16 / 24 bits look like a valid length
+ResizeLens == <<0, 1, 2, 30, 60, 61, 62, 63, 64>> \o
+              (IF Heap THEN <<>> ELSE <<256, 258, 286, 65536, 65537, 65541, 65566, 65597, 131074, 16777217, 2147483647>>)
 OpSeq == <<"new", "push", "push", "pop", "extend", "resize", "from", "normalize", "add_small", "mul_small",
            "from_u64", "clone", "swap", "compare", "eq", "is_normalized", "is_empty", "hi64", "push", "extend",
            \* more weight on clone / small change / comparison, so that equal-length vectors with different contents are compared
